@@ -64,7 +64,7 @@ def required_cells(tier):
 
 KINDS = ['emit', 'emit', 'twice', 'twice', 'val', 'pv', 'pv', 'assign', 'for', 'multi', 'valml', 'semi', 'semival', 'quiet',
          'blankout', 'wsout', 'emitblank', 'pvblank', 'aval', 'apv', 'acomp', 'coro_obj', 'noeol', 'noeol', 'assignprint', 'assignprint',
-         'strval1', 'dictval1', 'bytesval', 'printq1']
+         'strval1', 'dictval1', 'bytesval', 'printq1', 'pvsemi_str', 'pvsemi_comment', 'valsemi_str']
 
 
 def out_to_want(text):
@@ -113,6 +113,13 @@ def gen_program(rng):
         elif kind == 'assignprint':
             # a statement that prints but has no value of its own
             S.append(St(['y%d = emit(%d)' % (k, k)], kind, k))
+        elif kind == 'pvsemi_str':
+            # a semicolon that separates nothing: inside a string literal / a comment of the final expression statement
+            S.append(St(['(";", pv(%d))[1]' % k], kind, k, is_expr=True))
+        elif kind == 'pvsemi_comment':
+            S.append(St(['pv(%d)  # prints; and returns' % k], kind, k, is_expr=True))
+        elif kind == 'valsemi_str':
+            S.append(St(['("a;b", val(%d))[1]' % k], kind, k, is_expr=True))
         elif kind == 'strval1':
             # plain Python values whose repr holds a one letter string that looks like a bytes / unicode prefix
             S.append(St(['quiet(%d) or %r' % (k, rng.choice(['b', 'u', 'B', 'U']))], kind, k, is_expr=True))
@@ -241,7 +248,7 @@ def plan_wants(rng, S, ref, corrupt):
                 placed.append((idx, tag, depth))
                 break
             prev_ignored = False
-            if len(st.lines) == 1 and rng.random() < 0.15:
+            if len(st.lines) == 1 and '#' not in st.lines[0] and rng.random() < 0.15:
                 # the want is switched off for this statement only; it still is "the previous want" for the next one
                 st.lines[0] += '  # xdoctest: +IGNORE_WANT'
                 wl = ['IGNORED%d whatever' % idx]
